@@ -30,7 +30,8 @@ RULE = ("pairs (a, b) of zoo trees: b is a rebuilt copy of a with other origins 
         "separator-splice strings); non-trivial = tree >= 3 nodes; distinct by both descriptions")
 TRUSTED = ["blake2b idealised as injective (the property is decided modulo digest collisions)",
            "str()/type() texts of leaf values are injective per type (validated on the generated values of this run)"]
-ASSUMPTIONS = ["floats -0.0/NaN and tuples that differ only by bool/int at equal value are don't-cares and not generated"]
+ASSUMPTIONS = ["floats -0.0/NaN are don't-cares and not generated; 'equal values of equal types' is read structurally: (1, 0) and "
+               "(True, False) are different content, as the unchanged code has it"]
 BUDGET = {"quick": 240, "thorough": 2400}
 
 
@@ -92,7 +93,26 @@ def mutate(rng, spec, _depth=0):
         name = rng.choice(sorted(props))
         v = props[name]
         cls = zoo._BY_NAME[cname]
-        if isinstance(v, bool):
+        def retype(x):
+            # a value that is == but of another type (1 / True / 1.0): different content
+            if isinstance(x, bool):
+                return int(x)
+            if isinstance(x, int) and x in (0, 1):
+                return rng.choice([bool(x), float(x)])
+            if isinstance(x, int):
+                return float(x) if abs(x) < 2**50 else x + 1
+            if isinstance(x, float) and x == int(x) and abs(x) < 2**50:
+                return int(x)
+            return None
+        if isinstance(v, (bool, int)) and rng.random() < 0.4 and retype(v) is not None:
+            props[name] = retype(v)
+        elif isinstance(v, tuple) and v and rng.random() < 0.6 and any(retype(x) is not None for x in v):
+            i = rng.choice([j for j, x in enumerate(v) if retype(x) is not None])
+            props[name] = v[:i] + (retype(v[i]),) + v[i + 1:]
+        elif isinstance(v, frozenset) and v and rng.random() < 0.5 and any(isinstance(x, int) and x in (0, 1) for x in v):
+            x = next(y for y in v if isinstance(y, int) and y in (0, 1))
+            props[name] = frozenset([bool(x) if not isinstance(x, bool) else int(x)] + [y for y in v if y is not x])
+        elif isinstance(v, bool):
             props[name] = not v
         elif isinstance(v, int):
             props[name] = v + 1
